@@ -18,7 +18,7 @@ def b2f(b):
 
 
 F_POOL = [f2b(x) for x in (0.0, -0.0, 1.0, -1.0, 0.5, 1.5, -2.5, 3.0, 2.0 ** -10, 4096.0, 0.1, 100.25, -7.75,
-                            float("inf"), float("-inf"), 3.4028235e38, 1e-40, 1e-8, -1e-8, 1.1754944e-38, 1e-7, 1.2e-7)] + [2143289344, -4194304, 1, 1070141403, -1077342245, 1083624420, 1078530011]
+                            float("inf"), float("-inf"), 3.4028235e38, 1e-40, 1e-8, -1e-8, 1.1754944e-38, 1e-7, 1.2e-7, 2.0 ** -12, -(2.0 ** -11), 3 * 2.0 ** -13)] + [2143289344, -4194304, 1, 1070141403, -1077342245, 1083624420, 1078530011]
 I_POOL = [MININT, MININT + 1, -2, -1, 0, 1, 2, 3, 4, 5, 7, 10, 100, MAXINT - 1, MAXINT]
 NAMES = ["a", "b", "c", "foo", "x1"]
 
